@@ -304,21 +304,21 @@ Section RegionFacts.
     set (c3a := if ext then set_flags c2 (cUseCopy c2) (cShape c2) (cCurChanged c2) (cReady c2) true true else c2).
     assert (I3a : InvCore (sW st) (sH st) F c3a).
     { apply (core_ext _ _ _ c1); [exact I1|..]; unfold c3a, c2; destruct ext; destruct newfb; destruct c1; reflexivity. }
-    set (c3b := if cShape c && negb (cShape c3a) then redraw_cursor_M st c3a else c3a).
+    set (c3b := if setenc_drops_copy && negb copyrect && negb (rgn_is_empty (cC c3a))
+                then set_regions c3a (rgn_or (cM c3a) (cC c3a)) rgn_empty 0 0 (cR c3a) else c3a).
     assert (I3b : InvCore (sW st) (sH st) F c3b).
-    { unfold c3b. destruct (cShape c && negb (cShape c3a)); [apply core_redraw; assumption|exact I3a]. }
+    { unfold c3b. destruct (setenc_drops_copy && negb copyrect && negb (rgn_is_empty (cC c3a)));
+        [apply core_drop_copy; exact I3a|exact I3a]. }
     assert (E3b : cPW c3b = cPW c /\ cPH c3b = cPH c /\ cNewFBPending c3b = cNewFBPending c).
     { assert (E3a : cPW c3a = cPW c /\ cPH c3a = cPH c /\ cNewFBPending c3a = cNewFBPending c).
       { unfold c3a, c2, c1, c0. destruct ext; destruct newfb; destruct shape; destruct c; cbn; repeat split. }
-      unfold c3b. destruct (cShape c && negb (cShape c3a)); [|exact E3a].
+      unfold c3b. destruct (setenc_drops_copy && negb copyrect && negb (rgn_is_empty (cC c3a))); [|exact E3a].
       destruct E3a as (? & ? & ?). destruct c3a; cbn in *. repeat split; assumption. }
-    set (c3 := if setenc_drops_copy && negb copyrect && negb (rgn_is_empty (cC c3b))
-               then set_regions c3b (rgn_or (cM c3b) (cC c3b)) rgn_empty 0 0 (cR c3b) else c3b).
+    set (c3 := if cShape c && negb (cShape c3b) then redraw_cursor_M st c3b else c3b).
     assert (I3 : InvCore (sW st) (sH st) F c3).
-    { unfold c3. destruct (setenc_drops_copy && negb copyrect && negb (rgn_is_empty (cC c3b)));
-        [apply core_drop_copy; exact I3b|exact I3b]. }
+    { unfold c3. destruct (cShape c && negb (cShape c3b)); [apply core_redraw; assumption|exact I3b]. }
     assert (E3 : cPW c3 = cPW c /\ cPH c3 = cPH c /\ cNewFBPending c3 = cNewFBPending c).
-    { unfold c3. destruct (setenc_drops_copy && negb copyrect && negb (rgn_is_empty (cC c3b))); [|exact E3b].
+    { unfold c3. destruct (cShape c && negb (cShape c3b)); [|exact E3b].
       destruct E3b as (? & ? & ?). destruct c3b; cbn in *. repeat split; assumption. }
     destruct E3 as (Ew & Eh & Ep).
     change (InvC (sW st) (sH st) F (if cUseNewFB c3 then c3 else client_resize c3 (sW st) (sH st))).
@@ -570,14 +570,6 @@ Section RegionFacts.
     split; [wf|]. intros x y Hm. apply bbox_sup; assumption.
   Qed.
 
-  Lemma coalesce16_spec st n U : WF U ->
-    WF (coalesce16 st n U) /\ (forall x y, rgn_mem U x y = true -> rgn_mem (coalesce16 st n U) x y = true).
-  Proof.
-    intros HU. destruct (coalesce_spec st U HU) as [H1 H2]. unfold coalesce16. cbv zeta.
-    destruct (n + rgn_count (coalesce st U) + 6 >=? 65535); [|auto].
-    split; [wf|]. intros x y Hm. apply bbox_sup; [exact H1|]. apply H2. exact Hm.
-  Qed.
-
   Lemma slice_region_spec st c M U0 sy :
     0 < sW st -> WF M -> slice_region st c M = (U0, sy) ->
     WF U0 /\ (forall x y, rgn_mem U0 x y = true -> rgn_mem M x y = true).
@@ -611,8 +603,8 @@ Section RegionFacts.
     destruct (soft_cursor st c1 U3) as [c2 U3c] eqn:Esc.
     destruct (soft_cursor_spec _ _ _ _ _ HW HH HU3 Esc)
       as (HU3c & Hsup3 & E1 & E2 & E3 & E4 & E5 & E6 & E7 & E8 & E9 & E10 & E11).
-    destruct (coalesce16_spec st (rgn_count UC) U3c HU3c) as [HU4 Hsup4].
-    set (U4 := coalesce16 st (rgn_count UC) U3c) in *.
+    destruct (coalesce_spec st U3c HU3c) as [HU4 Hsup4].
+    set (U4 := coalesce st U3c) in *.
     set (c3 := if sendShape
                then set_flags c2 (cUseCopy c2) (cShape c2) false (cReady c2) (cUseNewFB c2) (cUseExt c2)
                else c2).
